@@ -13,6 +13,7 @@ import (
 	"errors"
 	"fmt"
 	"io"
+	"net/http"
 	"sort"
 	"strings"
 	"sync"
@@ -49,6 +50,10 @@ type Script struct {
 	CloseTail []Step `json:"close_tail,omitempty"`
 	// CallerCloses: it is the calling side (instead of the answering side) that starts the graceful Close.
 	CallerCloses bool `json:"caller_closes,omitempty"`
+	// NoticeLost (c2s over streamable HTTP): every POST that carries a notifications/cancelled fails at the
+	// network level (connection reset). The cancelled call still returns promptly, nobody else is disturbed and
+	// the session stays usable; only the peer's handler cannot be expected to hear of it.
+	NoticeLost bool `json:"notice_lost,omitempty"`
 }
 
 func genScript(rt *rapid.T) Script {
@@ -59,6 +64,9 @@ func genScript(rt *rapid.T) Script {
 		links = append(links, wire.Config{Kind: wire.Stateful, JSON: true})
 	}
 	s.Link = rapid.SampledFrom(links).Draw(rt, "link")
+	if s.Dir == "c2s" && s.Link.Kind == wire.Stateful {
+		s.NoticeLost = rapid.IntRange(0, 3).Draw(rt, "notice_lost") == 0
+	}
 	n := rapid.IntRange(2, 24).Draw(rt, "n")
 	calls := 0
 	for i := 0; i < n; i++ {
@@ -224,6 +232,24 @@ func runInBubble(s Script) (res vt.Result) {
 		},
 	})
 	link, err := wire.New(server, s.Link)
+	if err == nil && s.NoticeLost && link.HTTP != nil {
+		link.HTTP.Fail = func(r *http.Request) error {
+			if r.Method != "POST" || r.GetBody == nil {
+				return nil
+			}
+			rc, gerr := r.GetBody()
+			if gerr != nil {
+				return nil
+			}
+			b, _ := io.ReadAll(rc)
+			rc.Close()
+			if bytes.Contains(b, []byte(`"notifications/cancelled"`)) {
+				return errors.New("read tcp: connection reset by peer")
+			}
+			return nil
+		}
+		res.Class("cancellation_notices_cannot_be_delivered")
+	}
 	if err != nil {
 		res.Failf("harness: %v", err)
 		return
@@ -322,7 +348,7 @@ func runInBubble(s Script) (res vt.Result) {
 					res.Failf("step %d: cancelled call %d returned (%q, %v), want the context's error", step, c.k, c.result, c.err)
 				}
 				// the matching peer handler must have been told (healthy link), if it was running
-				if c.started && !c.finished && !blocked {
+				if c.started && !c.finished && !blocked && !s.NoticeLost {
 					if !final {
 						retry = true
 						continue
